@@ -530,6 +530,11 @@ def run(chk: Check):
     chk.extra["oracle"] = "Support.no_phantomb (Coq, vm_compute); proved <-> 'every prefix stored by a compressed level has level_support' in props/C03.v"
     cleanup_scratch()
 
+    # abstract kernel model G (coq/model/Kernel.v; theorems props/C01G.v: G computes spec, its output is
+    # well-formed and phantom-free): exact raw-array correspondence with the real evaluate kernels
+    from props._c01_kernel import run_kernel_correspondence
+    run_kernel_correspondence(chk)
+
 
 def replay(chk: Check, payload):
     os.environ.pop(GUARD, None)
